@@ -4,13 +4,17 @@
 (* are appended at freeOff (bump allocation, an id is the object's offset and      *)
 (* length), deleted space is counted as free but not reused, the block is written  *)
 (* out as prefix + object area + checksum into BlockSize bytes.                    *)
+(* The id handed out carries the offset in a field of fixed width (idoff).          *)
 EXTENDS Naturals, Sequences, FiniteSets, TLC
 
 CONSTANTS Blobs, NoBlob, LenOf,
           BlockSize, Prefix, Cksum,
-          CODE_CapacityIgnoresPrefix   \* the code checks freeOff + len <= BlockSize (no room left for prefix/checksum)
+          CODE_CapacityIgnoresPrefix,  \* the code checks freeOff + len <= BlockSize (no room left for prefix/checksum)
+          OffMod                       \* an id stores the object's offset in a field of fixed width: off % OffMod.  The design
+                                       \* needs OffMod > BlockSize; the pinned code had 2^16 whatever the block size
+                                       \* (a 512 KiB block for dense groups): C15_code_offwidth.cfg, repaired in 09ac40f
 
-VARIABLES objs,       \* set of [off, len, val, sq]  (sq: ghost, number of the insert that created the object)
+VARIABLES objs,       \* set of [off, idoff, len, val, sq]  (sq: ghost, number of the insert that created the object)
           freeOff, nObjs, freeSpace, nIns,
           disk        \* image written out: the object area bytes that fit into the block, as a set of [off,len,val]
 
@@ -24,7 +28,7 @@ Init == /\ objs = {} /\ freeOff = 0 /\ nObjs = 0 /\ freeSpace = Capacity /\ nIns
 
 Insert(b) ==
   /\ freeOff + LenOf[b] <= Capacity
-  /\ objs' = objs \cup {[off |-> freeOff, len |-> LenOf[b], val |-> b, sq |-> nIns + 1]}
+  /\ objs' = objs \cup {[off |-> freeOff, idoff |-> freeOff % OffMod, len |-> LenOf[b], val |-> b, sq |-> nIns + 1]}
   /\ freeOff' = freeOff + LenOf[b] /\ nObjs' = nObjs + 1 /\ freeSpace' = freeSpace - LenOf[b]
   /\ nIns' = nIns + 1 /\ UNCHANGED disk
 InsertNoFit(b) == /\ freeOff + LenOf[b] > Capacity /\ UNCHANGED vars
@@ -63,7 +67,9 @@ absSnap  == IF disk = NoBlob THEN NoBlob ELSE StoreOf(disk.objs \cup disk.lost)
 B == INSTANCE BlobStore WITH Ids <- Offs, store <- absStore, snap <- absSnap
 Refines == B!Spec
 
-IdsDistinct    == \A o1, o2 \in objs : o1.off = o2.off => o1 = o2
+IdsDistinct    == \A o1, o2 \in objs : o1.idoff = o2.idoff => o1 = o2
+\* a get through the id reads at the offset the id carries: it must be the object's own
+IdResolves     == \A o \in objs : o.idoff = o.off
 RangesDisjoint == \A o1, o2 \in objs : o1 # o2 => (o1.off + o1.len <= o2.off \/ o2.off + o2.len <= o1.off)
 Accounting     == /\ nObjs = Cardinality(objs)
                   /\ freeSpace + (LET RECURSIVE S(_) S(T) == IF T = {} THEN 0 ELSE LET o == CHOOSE o \in T : TRUE IN o.len + S(T \ {o}) IN S(objs)) = Capacity
